@@ -30,8 +30,23 @@ const spawnLimit = 300 * time.Second
 // advancing over 3 s, then a SIGQUIT goroutine dump in which every goroutine
 // with a rare/ frame is blocked).
 func spawn(argv []string, dir string, env []string, stdin []byte, chunks []int, probeStuck bool, limit time.Duration) result {
+	return spawnFrom(argv, dir, env, stdin, chunks, "", probeStuck, limit)
+}
+
+// spawnFrom: stdinPath != "" redirects standard input from that path (a file, or a directory: read(0) then fails with EISDIR).
+func spawnFrom(argv []string, dir string, env []string, stdin []byte, chunks []int, stdinPath string, probeStuck bool, limit time.Duration) result {
 	var res result
 	cmd := exec.Command(argv[0], argv[1:]...)
+	if stdinPath != "" {
+		f, err := os.Open(stdinPath)
+		if err != nil {
+			res.startErr = err
+			return res
+		}
+		defer f.Close()
+		cmd.Stdin = f
+		stdin = nil
+	}
 	cmd.Dir = dir
 	cmd.Env = env
 	cmd.SysProcAttr = &syscall.SysProcAttr{Setpgid: true}
